@@ -8,6 +8,7 @@ contents) and both kinds of view buffer (`direct`: field of a struct; otherwise 
 -/
 import Emboss.Properties.C02
 import Emboss.Lemmas.ScalarWriteView
+import Emboss.Lemmas.ScalarStore
 import Emboss.Lemmas.WriteInferenceCpp
 namespace Emboss.Scalar
 open Emboss.Bits Emboss.Scalar.Spec
@@ -274,6 +275,68 @@ example : ∃ v', (fieldView .int false exBB 9 5).tryToWrite ⟨true, 8⟩ (-3) 
     fieldBits v'.buf.bitBlock 0 9 = fieldBits exBB 0 9 ∧
     fieldBits v'.buf.bitBlock 14 10 = fieldBits exBB 14 10 ∧
     fieldBits v'.buf.bitBlock 9 5 = 29 := ⟨_, rfl, by decide, by decide, by decide⟩
+
+/-- **Frame at the level of the structure's buffer.**  The field's `c`-bit container occupies
+bytes `[p, p + c/8)` of the structure's backing store (the sub-buffer handed to the view
+aliases them).  A write the view accepts yields a store of the same length in which **every
+byte outside `[p, p + c/8)` is the old byte**, the container's bytes are the ones of
+`C03_write_frame` (so inside the container only bits `[o, o+w)` changed) and the field then
+reads `x`; if the buffer is too short for the container, or the value is refused, nothing is
+written at all. -/
+theorem C03_write_frame_store (store : List Nat) (p : Nat) (order : ByteOrder) (path : Path)
+    (c : Nat) (hfit : p + c / 8 ≤ store.length)
+    (h : Placed { order := order, path := path, c := c, bytes := (store.drop p).take (c / 8) } o w)
+    (direct : Bool) (hd : direct = true → o = 0 ∧ w = c) (ty : Ty) (hty : TypeFits ty w)
+    (t : IntT) (x : Int) (ha : ArgOk ty w t x)
+    (hc : (fieldView ty direct
+      { order := order, path := path, c := c, bytes := (store.drop p).take (c / 8) } o w).couldWrite t x = true) :
+    ∃ store' bytes', storeTryToWrite store p order path c ty direct o w t x = .written store' ∧
+      store'.length = store.length ∧
+      (∀ i, i < p ∨ p + c / 8 ≤ i → store'[i]? = store[i]?) ∧
+      containerOf store' p (c / 8) = some bytes' ∧
+      (fieldView ty direct { order := order, path := path, c := c, bytes := bytes' } o w).read = some x ∧
+      Updated o w (containerValue order ((store.drop p).take (c / 8)))
+        (fieldBits { order := order, path := path, c := c, bytes := bytes' } o w)
+        (containerValue order bytes') := by
+  obtain ⟨bytes', hw, hlen, hu, _⟩ := C03_write_frame h direct hd ty hty t x ha hc
+  obtain ⟨bytes'', hw', _, hrd⟩ := C03_write_then_read h direct hd ty hty t x ha hc
+  have hbb : bytes'' = bytes' := by
+    rw [hw] at hw'
+    simp only [View.WriteResult.written.injEq, fieldView, View.mk.injEq, true_and] at hw'
+    cases direct <;> simp [fieldBuf, BitBlock.offsetStorage] at hw' <;> simp_all
+  subst hbb
+  have hl : bytes''.length = c / 8 := by
+    have h1 := h.len; have h2 := h.c_mult
+    simp only at hlen h1 h2
+    omega
+  have hfit' : p + bytes''.length ≤ store.length := by omega
+  refine ⟨storeAfter store p bytes'', bytes'', ?_, storeAfter_length store p bytes'' hfit',
+    fun i hi => storeAfter_outside store p bytes'' hfit' i (by omega), ?_, hrd, hu⟩
+  · unfold storeTryToWrite containerOf
+    rw [if_pos hfit]
+    simp only [hw]
+    congr 2
+    cases direct <;> rfl
+  · rw [← hl]; exact storeAfter_container store p bytes'' hfit'
+
+/-- Too short a buffer, or a refused value: the store is not written. -/
+theorem C03_store_refused (store : List Nat) (p : Nat) (order : ByteOrder) (path : Path) (c : Nat)
+    (ty : Ty) (direct : Bool) (o w : Nat) (t : IntT) (x : Int)
+    (hf : store.length < p + c / 8 ∨ ∀ bytes, (fieldView ty direct
+      { order := order, path := path, c := c, bytes := bytes } o w).couldWrite t x = false) :
+    storeTryToWrite store p order path c ty direct o w t x = .refused := by
+  unfold storeTryToWrite containerOf
+  rcases hf with hf | hf
+  · rw [if_neg (by omega)]
+  · split
+    · rfl
+    · rw [tryToWrite_refused_of_not_could _ t x (hf _)]
+
+-- non-vacuity (test): the container `12 34 56` of `exBB` at byte 2 of a 7-byte store
+example : storeTryToWrite [0xaa, 0xbb, 0x12, 0x34, 0x56, 0xcc, 0xdd] 2 .big .opt 24 .int false 9 5
+      ⟨true, 8⟩ (-3) = .written [0xaa, 0xbb, 0x12, 0x3a, 0x56, 0xcc, 0xdd] ∧
+    storeTryToWrite [0xaa, 0xbb, 0x12, 0x34] 2 .big .opt 24 .int false 9 5 ⟨true, 8⟩ (-3) = .refused := by
+  decide
 
 /-- **Failed write**: if `CouldWriteValue(x)` is false or the view is incomplete,
 `TryToWrite(x)` returns false without calling `WriteUInt` (the buffer is not touched). -/
